@@ -185,6 +185,7 @@ def run(ctx: Ctx):
     padding_is_depot(ctx)
     pctsp_all_visited_count(ctx)
     svrp_every_route_checked(ctx)
+    single_tour(ctx)
     per_row_asserts(ctx)
     explained_asserts(ctx)
     gate(ctx)
@@ -593,6 +594,44 @@ def svrp_every_route_checked(ctx: Ctx):
         why = (f"the action sequence is closed with a depot visit before the depot positions are collected: {closed}; trailing check of the open route after the loop: {bool(trailing)}")
     ctx.ob("C06.o", "SVRPEnv.checker:every-route-checked", ok, fi.loc, why if ok else why + " -- the route of the last technician (and a sequence without depot visits) is never validated",
            construct="SVRPEnv.check_solution_validity:last-route")
+
+
+def single_tour(ctx: Ctx):
+    """C06.p improvement envs store the tour as a successor list (node -> next node).  A permutation is not enough: it may split
+    into several cycles.  The checker must walk the list from the depot / node 0 for n steps (`cur = solution[rows, cur]`) and
+    assert that every node was reached (`(visited_time > 0).all()` or an equivalent count)."""
+    import ast
+    for cname, path in (("TSPkoptEnv", "rl4co/envs/routing/tsp/env.py"), ("PDPRuinRepairEnv", "rl4co/envs/routing/pdp/env.py")):
+        cls = ctx.repo.get_class(path, cname)
+        fi = cls.methods.get("check_solution_validity")
+        if fi is None:
+            raise AnalysisError(f"{cname}.check_solution_validity not found")
+        ctx.fn(fi)
+        walk_vars, stamp_vars = set(), set()
+        for lp in [n for n in ast.walk(fi.node) if isinstance(n, ast.For)]:
+            for st in ast.walk(lp):
+                # cur = solution[rows, cur]
+                if isinstance(st, ast.Assign) and isinstance(st.targets[0], ast.Name) and isinstance(st.value, ast.Subscript):
+                    tgt = st.targets[0].id
+                    if any(isinstance(x, ast.Name) and x.id == tgt for x in ast.walk(st.value.slice)):
+                        walk_vars.add(tgt)
+                # stamp[rows, solution[rows, cur]] = i + 1
+                if isinstance(st, ast.Assign) and isinstance(st.targets[0], ast.Subscript) and isinstance(st.targets[0].value, ast.Name):
+                    stamp_vars.add(st.targets[0].value.id)
+        reached = False
+        for a in [n for n in ast.walk(fi.node) if isinstance(n, ast.Assert)]:
+            for c in ast.walk(a.test):
+                if isinstance(c, ast.Compare) and len(c.ops) == 1:
+                    sides = [c.left, c.comparators[0]]
+                    names = [x.id for x in sides if isinstance(x, ast.Name)]
+                    zero = [x for x in sides if isinstance(x, ast.Constant) and x.value == 0]
+                    if zero and any(nm in stamp_vars for nm in names) and isinstance(c.ops[0], (ast.Gt, ast.Lt, ast.NotEq, ast.GtE, ast.LtE)):
+                        strict = isinstance(c.ops[0], (ast.Gt, ast.Lt, ast.NotEq))
+                        reached = reached or strict
+        ok = bool(walk_vars) and bool(stamp_vars) and reached
+        ctx.ob("C06.p", f"{cname}.checker:single-tour", ok, fi.loc,
+               f"successor walk: {bool(walk_vars)}; visit stamps: {bool(stamp_vars)}; every node asserted to be reached: {reached}" +
+               ("" if ok else " -- a permutation with several cycles (sub-tours) is accepted"), construct=f"{cname}.check_solution_validity:single-tour")
 
 
 def run_thorough(ctx: Ctx):
